@@ -142,7 +142,7 @@ CLAIMED = {
             "member of a hostile pool (exhaustive sweep), seeded pairs, and container faults (truncate, bit flip, "
             "undecodable bytes, open quote, short record) on stored CID / data files incl. the repository's xls/ods/xlsx "
             "fixtures; oracle: only InterfaceError / DataError escape, main() never answers 4",
-            "Exhaustive single-cell sweep over 4 base CIDs and their data plus seeded pairs and container faults; "
+            "Exhaustive single-cell sweep over 5 base CIDs and their data plus seeded pairs and container faults; "
             "evidence, not proof outside the swept sub-space.",
             "Both error classes are allowed in both phases; child processes run under a 2 GiB address-space limit so that "
             "giant allocations surface as MemoryError instead of killing the check.",
